@@ -185,6 +185,31 @@ where
     }
 }
 
+/// The built-in interner used through `Arc<TokenInterner>`'s own `Resolver` impl (what a tree created with
+/// `new_root_with_resolver(green, Arc::new(interner))` resolves through); interning goes through the unique `Arc`.
+#[cfg(not(feature = "lasso"))]
+pub struct ArcBuiltin(pub std::sync::Arc<cstree::interning::TokenInterner>);
+#[cfg(not(feature = "lasso"))]
+impl Resolver<TokenKey> for ArcBuiltin {
+    fn try_resolve(&self, key: TokenKey) -> Option<&str> {
+        <std::sync::Arc<cstree::interning::TokenInterner> as Resolver<TokenKey>>::try_resolve(&self.0, key)
+    }
+    fn resolve(&self, key: TokenKey) -> &str {
+        <std::sync::Arc<cstree::interning::TokenInterner> as Resolver<TokenKey>>::resolve(&self.0, key)
+    }
+}
+#[cfg(not(feature = "lasso"))]
+impl Interner<TokenKey> for ArcBuiltin {
+    type Error = <cstree::interning::TokenInterner as Interner<TokenKey>>::Error;
+
+    fn try_get_or_intern(&mut self, text: &str) -> Result<TokenKey, Self::Error> {
+        std::sync::Arc::get_mut(&mut self.0).expect("unique").try_get_or_intern(text)
+    }
+    fn get_or_intern(&mut self, text: &str) -> TokenKey {
+        std::sync::Arc::get_mut(&mut self.0).expect("unique").get_or_intern(text)
+    }
+}
+
 /// The interner type used by every builder of the harness: a boxed back end plus a fault switch
 /// (this is also the "user supplied interner that fails on command" of C20).
 pub struct BoxI {
@@ -286,6 +311,8 @@ pub fn make_interner(backend: &str) -> Option<BoxI> {
                 Box::leak(Box::new(cstree::interning::new_interner()));
             Box::new(leaked)
         }
+        #[cfg(not(feature = "lasso"))]
+        "builtin_arc" => Box::new(ArcBuiltin(std::sync::Arc::new(cstree::interning::new_interner()))),
         "user" => Box::new(UserInterner::default()),
         #[cfg(feature = "lasso")]
         "lasso_token" => Box::new(cstree::interning::new_interner()),
@@ -322,7 +349,7 @@ pub fn make_interner(backend: &str) -> Option<BoxI> {
 pub fn backends() -> Vec<&'static str> {
     #[cfg(not(feature = "lasso"))]
     {
-        vec!["builtin", "mutref", "user"]
+        vec!["builtin", "mutref", "builtin_arc", "user"]
     }
     #[cfg(feature = "lasso")]
     {
